@@ -563,3 +563,12 @@ impl std::fmt::Debug for MemoTable {
         f.debug_struct("MemoTable").finish_non_exhaustive()
     }
 }
+
+/// Verification hook: Kani proof harnesses for this module's private items (text lives outside
+/// this repository, in `$SALSA_VERIF_HARNESS_DIR`).
+#[cfg(kani)]
+#[allow(dead_code, unused_imports)]
+pub(crate) mod verif {
+    use super::*;
+    include!(concat!(env!("SALSA_VERIF_HARNESS_DIR"), "/table_memo.rs"));
+}
